@@ -29,6 +29,8 @@ def load_known():
         KNOWN_MATCHVAL = set(d.get("match_value_fns", []))
         global KNOWN_ARRAYLOOPS
         KNOWN_ARRAYLOOPS = set(d.get("array_loop_fns", []))
+        global KNOWN_PHIJOIN
+        KNOWN_PHIJOIN = set(d.get("phi_join_fns", []))
         global REF_SIGS, REF_ADTS
         REF_SIGS = d.get("signatures", {})
         REF_ADTS = d.get("adts", {})
@@ -42,6 +44,7 @@ def load_known():
 
 PLAIN_EXTENDS = set()  # functions of the reference tree that call Extend::extend (the rules read those as written)
 PLAIN_COLLECTS = set()  # functions of the reference tree that call collect() directly on a closure-free iterator
+KNOWN_PHIJOIN = set()  # functions of the reference tree in which a value chosen by a match / if is used by a small shared tail: left merged
 KNOWN_ARRAYLOOPS = set()  # functions of the reference tree that loop over a literal array: left as they are
 REF_ADTS = {}
 REF_SIGS = {}  # crate type -> reference signatures (see recognise_renames)
@@ -3054,6 +3057,164 @@ def dominated(b, j):
 OR_PATTERN_BODY_LIMIT = 40
 
 
+EMPTY_CTORS = ("std::vec::Vec::<T>::new", "std::default::Default::default")
+
+
+def prune_loops_over_nothing(b, log):
+    """`for x in Vec::new()` (what `opt.unwrap_or_default()` leaves in the `None` alternative once that has its own copy of the loop): the first
+    `next()` answers None"""
+    n = 0
+    for bi, blk in enumerate(b["blocks"]):
+        t = blk["term"]
+        if t is None or t["k"] != "call" or blk.get("cleanup") or t.get("t") is None:
+            continue
+        fn = callee_of(t)
+        if fn is None or fn["path"] != ITER + "next" or len(t["args"]) != 1:
+            continue
+        a = t["args"][0]
+        if a["k"] not in ("move", "copy") or a["p"]["pr"]:
+            continue
+        d = single_def(b, a["p"]["l"])
+        if not (d and d[0] == "rv" and d[3]["k"] == "ref" and not d[3]["p"]["pr"]):
+            continue
+        it = d[3]["p"]["l"]
+        v = None
+        for _hop in range(4):
+            di = single_def(b, it)
+            if di is None:
+                break
+            if di[0] == "rv" and di[3]["k"] == "use" and di[3]["o"]["k"] in ("move", "copy") and not di[3]["o"]["p"]["pr"]:
+                it = di[3]["o"]["p"]["l"]
+                continue
+            if di[0] == "call":
+                f2 = callee_of(di[2])
+                if f2 is not None and f2["path"] == "std::iter::IntoIterator::into_iter" and len(di[2]["args"]) == 1 and di[2]["args"][0]["k"] in ("move", "copy") \
+                        and not di[2]["args"][0]["p"]["pr"]:
+                    it = di[2]["args"][0]["p"]["l"]
+                    continue
+                if f2 is not None and f2["path"] in EMPTY_CTORS and not di[2]["args"] and b["locals"][it]["ty"].startswith("std::vec::Vec<"):
+                    v = it
+            break
+        if v is None:
+            continue
+        # nothing else touches the list (a `&mut` taken for a push would be another occurrence)
+        occ = 0
+        for blk2 in b["blocks"]:
+            if blk2.get("cleanup"):
+                continue
+            for st in blk2["stmts"]:
+                acc = set()
+                locals_in(st, acc)
+                occ += v in acc
+            acc = set()
+            if blk2["term"] is not None:
+                locals_in(blk2["term"], acc)
+            occ += v in acc
+        if occ != 2:  # its creation and the one move into the iterator
+            continue
+        blk["stmts"].append(assign(copy.deepcopy(t["dest"]), adt_agg("std::option::Option", "None", 0, []), blk["tloc"]))
+        blk["term"] = goto(t["t"])
+        n += 1
+    if n:
+        log.append("%s: %d loop(s) over a list that was just created empty removed" % (b["path"], n))
+
+
+def drops_to_gotos(b):
+    for blk in b["blocks"]:
+        if not blk.get("cleanup") and blk["term"] is not None and blk["term"]["k"] == "drop":
+            blk["term"] = goto(blk["term"]["t"])
+
+
+def phi_binding_block(blk, j):
+    """a block that ends an alternative by assigning (`let x = match .. { A => a, B => b }`): the locals it assigns whole"""
+    if blk.get("cleanup") or blk["term"] is None:
+        return None
+    out = set()
+    t = blk["term"]
+    if t["k"] == "call" and t.get("t") == j and not t["dest"]["pr"]:
+        out.add(t["dest"]["l"])  # (`A => f(a)`: the alternative's value is a call's result)
+    elif t["k"] != "goto" or t["t"] != j or not blk["stmts"]:
+        return None
+    for st in blk["stmts"]:
+        if st["k"] != "assign":
+            return None
+        if not st["p"]["pr"]:
+            out.add(st["p"]["l"])
+    return out
+
+
+def unmerge_phi_joins(b, log):
+    """`let xs = match attr { A(..) => list_a, B(..) => vec![e], _ => continue }; for x in xs { .. }`: what follows the match is the same code for
+    each alternative, run on that alternative's value. When that part is small it is given to each alternative separately (as if the `for` had been
+    written in each arm), so that rules which follow a value to where it came from see one origin per path instead of a merged one."""
+    limit = 2 * len(b["blocks"]) + 120
+    done = 0
+    progress = True
+    while progress and len(b["blocks"]) < limit and done < 12:
+        progress = False
+        live = dominated(b, 0)
+        preds = {}
+        for i, blk in enumerate(b["blocks"]):
+            if blk.get("cleanup") or i not in live or blk["term"] is None:
+                continue
+            for t in succs(blk):
+                preds.setdefault(t, []).append(i)
+        for j, ps in sorted(preds.items()):
+            if len(ps) < 2 or len(ps) > 4 or len(set(ps)) != len(ps) or b["blocks"][j].get("cleanup"):
+                continue
+            bound = [phi_binding_block(b["blocks"][p], j) for p in ps]
+            if any(x is None for x in bound):
+                continue
+            common = set.intersection(*bound)
+            if not common:
+                continue
+            region = dominated(b, j)
+            if j not in region or len(region) > OR_PATTERN_BODY_LIMIT or any(p in region for p in ps):
+                continue
+            # the merged value must be looked at in what follows (otherwise there is nothing to separate), and be a list / option / node, not a flag or a number
+            used = set()
+            for x in region:
+                locals_in(b["blocks"][x]["stmts"], used)
+                locals_in(b["blocks"][x]["term"], used)
+            cand = [l for l in common & used if l > b["arg_count"] and b["locals"][l]["ty"] not in ("bool", "usize", "u32", "i32", "u16", "()", "isize")]
+            if not cand:
+                continue
+            # a loop head among the region's exits back to a block outside is fine (the `continue` of the enclosing loop); the region itself must not be
+            # entered from elsewhere (dominance guarantees it)
+            inside = set(region) | set(ps)
+            used_in, used_out = set(), set()
+            for i, blk in enumerate(b["blocks"]):
+                if blk.get("cleanup") or i not in live:
+                    continue
+                acc = set()
+                locals_in(blk["stmts"], acc)
+                locals_in(blk["term"], acc)
+                (used_in if i in inside else used_out).update(acc)
+            private = set(l for l in used_in - used_out if l > b["arg_count"])
+            if not (set(cand) <= private):
+                continue
+            order = sorted(region)
+            for p in ps[1:]:
+                lmap = {}
+                for l in sorted(private):
+                    b["locals"].append(copy.deepcopy(b["locals"][l]))
+                    lmap[l] = len(b["locals"]) - 1
+                bmap = {x: len(b["blocks"]) + k for k, x in enumerate(order)}
+                for x in order:
+                    b["blocks"].append(rename(b["blocks"][x], lmap, bmap))
+                pb = b["blocks"][p]
+                pb["stmts"] = rename(pb["stmts"], lmap, {})
+                if pb["term"]["k"] == "call":
+                    pb["term"] = rename(pb["term"], lmap, {j: bmap[j]})
+                else:
+                    pb["term"] = goto(bmap[j])
+            done += 1
+            progress = True
+            break
+    if done:
+        log.append("%s: %d value(s) chosen by a match given their own copy of the code that follows" % (b["path"], done))
+
+
 def unmerge_or_patterns(b, log):
     """an or-pattern with bindings (`A(x) | B(x) => body`) is lowered to one binding block per alternative that all jump to a shared body; give every
     alternative its own copy of the body so that each binding has a single definition (the shape of separate arms)"""
@@ -3545,9 +3706,7 @@ def preprocess(data, known=None, known_uses=None):
     for b in todo:
         # the end of a value's scope is no event for any rule (what Drop impls do is std's or solang's business, C04's callee table): a scope-end
         # drop is a plain jump, so that the paths through a function are not chopped up by them
-        for blk in b["blocks"]:
-            if not blk.get("cleanup") and blk["term"] is not None and blk["term"]["k"] == "drop" and not os.environ.get("KEEPDROP"):
-                blk["term"] = goto(blk["term"]["t"])
+        drops_to_gotos(b)
         guarded("idiom rewriting", rewrite_idioms, b, log)
         guarded("`?` desugaring", desugar_try, b, log)
         guarded("jump threading", thread_bool_jumps, b, log)
@@ -3557,6 +3716,8 @@ def preprocess(data, known=None, known_uses=None):
             guarded("match value splitting", unmerge_match_values, b, log)
         if b["path"] not in KNOWN_ARRAYLOOPS:
             guarded("literal array loop unrolling", unroll_literal_array_loops, b, log)
+        if b["path"] not in KNOWN_PHIJOIN and b["path"] not in KNOWN_ORPAT:
+            guarded("match value joins", unmerge_phi_joins, b, log)
     r = guarded("lazy statics", lambda d_: lazy_statics(d_, bodies, log), data)
     if r:
         spliced_closures |= r
@@ -3571,6 +3732,9 @@ def preprocess(data, known=None, known_uses=None):
             r = guarded(what, fn_, b)
             if r:
                 spliced_closures |= r
+        if b["path"] not in KNOWN_PHIJOIN and b["path"] not in KNOWN_ORPAT:
+            guarded("match value joins", unmerge_phi_joins, b, log)
+            guarded("loops over nothing", prune_loops_over_nothing, b, log)
         guarded("jump threading", thread_bool_jumps, b, log)
     dropped = set()
     if known is not None:
@@ -3695,7 +3859,8 @@ def write_known(facts, path=KNOWN_FILE):
                 lg = ["?"]
             if lg:
                 alf.add(b["path"])
-    json.dump({"array_loop_fns": sorted(alf), "match_value_fns": sorted(mvf), "adts": adts, "signatures": sigs, "signatures_comment": "per crate: parameter / result types and local callers / callees of every "
+    pjf = set()  # (filled in by a second pass over the real pipeline: see phi_join_pass)
+    json.dump({"phi_join_fns": sorted(pjf), "array_loop_fns": sorted(alf), "match_value_fns": sorted(mvf), "adts": adts, "signatures": sigs, "signatures_comment": "per crate: parameter / result types and local callers / callees of every "
                "function of the reference tree, used only to recognise a function that was renamed or moved (prep.recognise_renames)", "comment": "function inventory of the reference tree (rules are anchored on these names); closure-taking calls of the reference tree; "
                           "functions of the reference tree with variable-binding or-patterns",
                "functions": sorted(fns), "closure_uses": sorted(list(u) for u in uses), "or_pattern_fns": sorted(orp), "plain_collects": sorted(plain), "plain_extends": sorted(pext),
@@ -3703,10 +3868,29 @@ def write_known(facts, path=KNOWN_FILE):
                "dormant": DORMANT}, open(path, "w"), indent=1)
 
 
+def phi_join_pass(facts, path=KNOWN_FILE):
+    """functions of the reference tree in which `unmerge_phi_joins` would fire when the whole pipeline runs with the lists just written"""
+    global KNOWN_PHIJOIN
+    known, known_uses = load_known()
+    KNOWN_PHIJOIN = set()
+    pjf = set()
+    for c in facts.values():
+        d2 = preprocess(copy.deepcopy(c), known=known, known_uses=known_uses)
+        for line in d2.get("prep_log", []):
+            if "chosen by a match given their own copy" in line:
+                pjf.add(line.split(": ", 1)[0])
+    d = json.load(open(path))
+    d["phi_join_fns"] = sorted(pjf)
+    json.dump(d, open(path, "w"), indent=1)
+    KNOWN_PHIJOIN = pjf
+
+
 if __name__ == "__main__":
     import sys
     sys.path.insert(0, HERE)
     import facts as F
     if sys.argv[1:2] == ["--write-known"]:
-        write_known(F.load(sys.argv[2] if len(sys.argv) > 2 else F.REPO))
+        facts_ = F.load(sys.argv[2] if len(sys.argv) > 2 else F.REPO)
+        write_known(facts_)
+        phi_join_pass(facts_)
         print("written", KNOWN_FILE)
